@@ -14,6 +14,7 @@
 //	init <name:addr:minter:burner;...> => S=<supply> A=<addr:upokt:module;...>
 //	op <kind> <args…> => <errclass> S=… A=…
 //	ext <reward|burn> <addr> <n> => S=… A=…
+//	dropped <op …|ext …> => <errclass|-> S=… A=…   (run on a cache layer that is never written)
 //	sync <what> => S=… A=…
 //	begin <h> <missed> <evidence> => S=… A=…
 //	tx <kind> <code> <daoburn-amount|0> => S=… A=…
@@ -159,6 +160,18 @@ func runOps(t *gen.Trace, r *gen.R, nops int) {
 		var desc string
 		var call func() sdk.Error
 		k := r.Intn(100)
+		// 1 in 14: the operation runs on a cache layer that is then dropped (what happens to a message
+		// whose store layer is discarded: ante abort, simulation, a failed message under a rolling-back
+		// baseapp) — nothing of it may survive, neither in the store nor in what later operations compute
+		dropped := r.Chance(1, 14)
+		if dropped {
+			ctx = ctx.WithMultiStore(ctx.MultiStore().CacheMultiStore())
+			if r.Bool() {
+				k = 60 + r.Intn(24) // mint / burn
+			} else if r.Bool() {
+				k = 90 + r.Intn(10) // the real reward / challenge-burn sites
+			}
+		}
 		switch {
 		case k < 28:
 			src, dst := addrs[r.Intn(len(addrs))], addrs[r.Intn(len(addrs))]
@@ -201,6 +214,10 @@ func runOps(t *gen.Trace, r *gen.R, nops int) {
 				defer func() { recover() }()
 				nk.RewardForRelays(ctx, sdk.NewInt(relays), v.Addr)
 			}()
+			if dropped {
+				t.Line("dropped-ext-reward", true, "dropped ext reward %s %d => - %s", v.Addr, relays, bankdrv.DumpBank(n, n.Ctx()))
+				continue
+			}
 			t.Line("ext-reward", true, "ext reward %s %d => %s", v.Addr, relays, bankdrv.DumpBank(n, n.Ctx()))
 			continue
 		default:
@@ -210,6 +227,10 @@ func runOps(t *gen.Trace, r *gen.R, nops int) {
 				defer func() { recover() }()
 				nk.BurnForChallenge(ctx, sdk.NewInt(ch), v.Addr)
 			}()
+			if dropped {
+				t.Line("dropped-ext-burn", true, "dropped ext burn %s %d => - %s", v.Addr, ch, bankdrv.DumpBank(n, n.Ctx()))
+				continue
+			}
 			t.Line("ext-burn", true, "ext burn %s %d => %s", v.Addr, ch, bankdrv.DumpBank(n, n.Ctx()))
 			continue
 		}
@@ -222,6 +243,10 @@ func runOps(t *gen.Trace, r *gen.R, nops int) {
 			return bankdrv.ErrClass(call())
 		}()
 		kind := strings.SplitN(desc, " ", 2)[0]
+		if dropped {
+			t.Line("dropped-"+kind+"/"+res, res == "ok", "dropped op %s => %s %s", desc, res, bankdrv.DumpBank(n, n.Ctx()))
+			continue
+		}
 		t.Line(kind+"/"+res, res == "ok", "op %s => %s %s", desc, res, bankdrv.DumpBank(n, n.Ctx()))
 	}
 	t.Close(nil)
@@ -257,6 +282,30 @@ func runChain(t *gen.Trace, r *gen.R, blocks int) {
 		t.Line("end", false, "end %d => %s", h, bankdrv.DumpBank(n, s.MidCtx()))
 		s.Commit()
 		t.Line("commit", false, "commit %d => %s", h, bankdrv.DumpBank(n, n.Ctx()))
+		if r.Chance(1, 4) {
+			// between blocks: a supply-changing keeper call on a cache layer that is dropped (a simulated or
+			// aborted message); the following blocks' slashes and DAO burns must not inherit anything from it
+			ak := n.App.VerifAccountKeeper()
+			cctx := n.Ctx()
+			cctx = cctx.WithMultiStore(cctx.MultiStore().CacheMultiStore())
+			amt := int64(1 + r.Intn(1000000))
+			desc, res := "", "ok"
+			func() {
+				defer func() {
+					if p := recover(); p != nil {
+						res = "panic"
+					}
+				}()
+				if r.Bool() {
+					desc = fmt.Sprintf("mint %s %d", govTypes.DAOAccountName, amt)
+					res = bankdrv.ErrClass(ak.MintCoins(cctx, govTypes.DAOAccountName, bankdrv.Coins(amt)))
+				} else {
+					desc = fmt.Sprintf("burn %s %d", govTypes.DAOAccountName, amt)
+					res = bankdrv.ErrClass(ak.BurnCoins(cctx, govTypes.DAOAccountName, bankdrv.Coins(amt)))
+				}
+			}()
+			t.Line("dropped", true, "dropped op %s => %s %s", desc, res, bankdrv.DumpBank(n, n.Ctx()))
+		}
 	}
 	t.Close(map[string]interface{}{"tx_codes": codes})
 }
